@@ -104,9 +104,16 @@ def run(fx, chk, tier):
                     wild_ok = names == ["skip_box"] and not [m for m, _ in hirq.walk(a["body"]) if m.get("k") in ("assign", "assignop")]
     if not dec:
         # second form: one match selects the key (`BoxType::X => Some(MetadataKey::K), _ => None`) and a later match on that
-        # option reads and inserts the item (Some) or only skips (None)
+        # option reads and inserts the item (Some) or only skips (None).  The selecting match may live in a helper of the same
+        # file, and the consumer may be written `if let Some(key) = .. { read; insert } else { skip }`
+        sel_roots = [hirq.body_root(fr)]
         for n, _ in hirq.walk(hirq.body_root(fr)):
-            if n.get("k") == "match" and n.get("src") == "match" and hirq.path_str(n["scrut"]) == "name":
+            if n.get("k") in ("call", "mcall"):
+                g = n.get("resolved") or n.get("fn")
+                if g in fx.fns and (fx.fns[g].get("span") or {}).get("file") == (fr.get("span") or {}).get("file") and "MetadataKey" in str(fx.fns[g].get("output_s") or ""):
+                    sel_roots.append(hirq.body_root(fx.fns[g]))
+        for n, _ in [x for r_ in sel_roots if r_ is not None for x in hirq.walk(r_)]:
+            if n.get("k") == "match" and n.get("src") == "match" and (hirq.path_str(n["scrut"]) == "name" or "BoxType" in str(n["scrut"].get("ty") or "")):
                 t_ = tables.match_table(fx, n)
                 sel = {}
                 none_wild = False
@@ -133,6 +140,13 @@ def run(fx, chk, tier):
                             if some_ok:
                                 dec = sel
                                 wild_ok = none_ok
+                        if m2.get("k") == "if" and m2["cond"].get("k") == "letx" and "MetadataKey" in str(m2["cond"]["init"].get("ty") or "") and (m2["cond"]["pat"].get("def") or "").endswith("Option::Some"):
+                            calls_t = [(c.get("fn") or c.get("m") or "").split("::")[-1] for c, _ in hirq.walk(m2["then"]) if c.get("k") in ("call", "mcall")]
+                            els = m2.get("else") or {"k": "block", "stmts": []}
+                            calls_e = [(c.get("fn") or c.get("m") or "").split("::")[-1] for c, _ in hirq.walk(els) if c.get("k") in ("call", "mcall")]
+                            if "read_box" in calls_t and "insert" in calls_t:
+                                dec = sel
+                                wild_ok = calls_e == ["skip_box"] and not [c for c, _ in hirq.walk(els) if c.get("k") in ("assign", "assignop")]
     dec_unreadable = not dec
     # ---- encoder table
     enc = {}
@@ -186,6 +200,23 @@ def run(fx, chk, tier):
             k = tables.result_norm(fx, hirq.strip_wrappers(gets[0]["args"][0]))
             fnv = hirq.strip_wrappers(conv[0]["args"][0]) if conv else None
             acc[name] = (last(k[1]) if k[0] == "variant" else None, last(fnv.get("def")) if fnv is not None and fnv.get("k") == "path" else None)
+        if acc.get(name) is None or None in acc[name]:
+            # shape-independent reading: the one MetadataKey variant the accessor names (possibly as the argument of a
+            # lookup helper) and the one item_to_* conversion it refers to (called, or passed to map / and_then)
+            ks, cs = set(), set()
+            for m, _ in hirq.walk(hirq.body_root(f)):
+                if m.get("k") == "path" and m.get("res") != "local":
+                    d_ = m.get("def") or ""
+                    if "MetadataKey::" in d_:
+                        ks.add(last(d_))
+                    if last(d_).startswith("item_to_"):
+                        cs.add(last(d_))
+                if m.get("k") == "call":
+                    g_ = last(m.get("resolved") or m.get("fn") or "")
+                    if g_.startswith("item_to_"):
+                        cs.add(g_)
+            if len(ks) == 1 and len(cs) == 1:
+                acc[name] = (sorted(ks)[0], sorted(cs)[0])
     wantacc = {"title": ("Title", "item_to_str"), "year": ("Year", "item_to_u32"), "poster": ("Poster", "item_to_bytes"), "summary": ("Summary", "item_to_str")}
     for name, w in wantacc.items():
         chk.require(acc.get(name) == w, "R1", "accessor|" + name, "%s() = items[%s] via %s" % (name, w[0], w[1]), "Metadata::%s reads %s" % (name, acc.get(name)), site_of(fr))
@@ -296,6 +327,9 @@ def run(fx, chk, tier):
         if ty[0] == "table" and ty[1][0] == "param" and ty[1][1] == "item.data.data_type":
             for pat, res, arm in ty[2]:
                 vname = last(pat[1]) if pat[0] == "variant" else pat[0]
+                if vname == "Binary" and res[0] == "ite" and res[3][0] == "variant" and last(res[3][1]) == "None":
+                    # `Binary => if len == 4 { Some(..) } else { None }`: the same as the guarded arm falling through to `_ => None`
+                    res = ("guardarm", res[1], res[2])
                 if vname == "Binary" and res[0] == "guardarm":
                     g, body_ = res[1], res[2]
                     g_ok = g[0] == "cmp" and g[1] == "Eq" and ext(g[2], "len") and is_payload(ext(g[2], "len")[0]) and sval.const_val(g[3]) == 4
@@ -348,10 +382,30 @@ def run(fx, chk, tier):
             for s_ in b.stmts(bb):
                 if s_["k"] != "assign" or s_["rv"]["k"] != "agg" or s_["rv"].get("ak") != "adt" or not str(s_["rv"].get("adt", "")).endswith("reader::Mp4Reader"):
                     continue
-                nctor += 1
                 flds = dict(zip(s_["rv"]["fields"], s_["rv"]["ops"]))
                 mo = flds.get("moov")
                 c = b.canon_op(mo) if mo is not None else ""
+                mparam = _re.match(r"^\$(\d+)$", c)
+                if mparam and int(mparam.group(1)) <= b.argc:
+                    # a private constructor that receives the movie box: judged at each of its call sites
+                    from callgraph import callgraph as _cgf
+                    pi = int(mparam.group(1))
+                    for caller in sorted(_cgf(fx).callers_of(fid)):
+                        cb = body_of(fx.fns[caller])
+                        if cb is None:
+                            continue
+                        for b2, t2 in cb.calls():
+                            from mir import callee_path as _cp
+                            if _cp(t2["callee"]) != fid or pi - 1 >= len(t2["args"]):
+                                continue
+                            nctor += 1
+                            a2 = t2["args"][pi - 1]
+                            c2 = cb.canon_op(a2)
+                            ok2 = bool(_re.match(r"^\$\d+\.moov$", c2)) or "read_box" in c2 or _decoded_option(cb, a2)
+                            chk.require(ok2, "R8", "%s|moov" % caller.split("::")[-1], "movie box handed to the constructor %s: %s" % (fid.split("::")[-1], c2[:60]),
+                                        "%s builds an Mp4Reader (through %s) from moov = %s: metadata() of that reader no longer reports the tags of the movie" % (caller.split("::")[-1], fid.split("::")[-1], c2[:80]), site_of(fx.fns[caller], t2.get("line")))
+                    continue
+                nctor += 1
                 key = "%s|moov" % fid.split("::")[-1]
                 ok, how = False, "moov = %s" % c[:80]
                 if _re.match(r"^\$\d+\.moov$", c):
